@@ -14,7 +14,7 @@ try:
     if r.returncode != 0:
         r = subprocess.run('git apply -3 %s' % src, shell=True, cwd=st, stdout=subprocess.PIPE, stderr=subprocess.STDOUT, text=True)
     print('apply:', r.returncode, r.stdout.strip()[:300])
-    env = dict(os.environ, VERIF_REPO=st, VERIF_KANI_TARGET='/verif/.cache/kani-target')
+    env = dict(os.environ, VERIF_REPO=st, VERIF_KANI_TARGET='/verif/.cache/kani-target', VERIF_EVIDENCE_DIR='/scratch/seed_evidence', VERIF_REPLAY_DIR='/scratch/seed_replays')
     p = subprocess.run(['/verif/check', prop], env=env, stdout=subprocess.PIPE, stderr=subprocess.STDOUT, text=True)
     print(p.stdout[-3000:])
     print('exit', p.returncode)
